@@ -261,6 +261,38 @@ class Runner:
         elif op == 'to_proof':
             if self.phase != 1 or self.published_claims < len(self.claim_specs): raise Skip
             it.into_proof_phase(); self.phase = 2; self.stack = []; self.counters['phase_changes'] += 1
+        elif op == 'misuse':
+            # a call the stack discipline forbids: the tracking interpreter has to refuse it (raise); the caller treats a
+            # normal return as "accepted" and lets the machine judge the bytes.  Only meaningful for tracking interpreters.
+            import proof_generation.pattern as P
+
+            odd = P.App(P.Symbol('misuse'), P.Symbol('misuse'))
+            kind = step[1]
+            if kind == 'prove-out-of-order':
+                if self.phase != 2 or len(self.claim_specs) - self.proved_claims < 2: raise Skip
+                ck, v = self.claim_specs[self.proved_claims + 1]
+                if ck == 'axiom':
+                    pr = Proved(gens.build_repo(self.axioms[v])); self._load('axiom', pr)
+                else:
+                    pr = self._refl(gens.build_repo(v))
+                it.publish_proof(pr)
+            elif kind == 'instantiate-without-plugs':
+                t = self.top(1)
+                if not t or not isinstance(t[0], Proved): raise Skip
+                mvs = sorted(t[0].conclusion.metavars())
+                if not mvs: raise Skip
+                it.instantiate(t[0], {mvs[0]: odd})
+            elif kind == 'pop-other':
+                if not self.top(1): raise Skip
+                it.pop(odd)
+            elif kind == 'load-absent':
+                it.load('misuse', odd)
+            elif kind == 'save-other':
+                if not self.top(1): raise Skip
+                it.save('misuse', odd)
+            else:
+                raise ValueError(kind)
+            self.ops.add('misuse-accepted')
         elif op == 'prove_claim':
             if self.phase != 2 or self.proved_claims >= len(self.claim_specs): raise Skip
             kind, v = self.claim_specs[self.proved_claims]
@@ -281,9 +313,19 @@ STEP_KINDS = ['atom', 'atom', 'pattern', 'binary', 'binder', 'subst', 'schema', 
               'instantiate_top', 'instantiate_top', 'save', 'load', 'load', 'pop', 'publish', 'publish', 'phase', 'phase', 'mk_subst', 'save_many']
 
 
-def draw_step(draw, r: Runner):
+MISUSES = ['prove-out-of-order', 'prove-out-of-order', 'instantiate-without-plugs', 'pop-other', 'load-absent', 'save-other']
+
+
+def draw_step(draw, r: Runner, misuse=False):
     """Draw one JSON-able step that is likely applicable to runner r (Skip is still possible)."""
     _, _, defs = pool()
+    if misuse:
+        # the out-of-order publication whenever it is possible (it needs two open claims in the proof phase), the others rarely:
+        # a refused call ends the history
+        if r.phase == 2 and len(r.claim_specs) - r.proved_claims >= 2 and draw(st.integers(0, 5)) == 0:
+            return ['misuse', 'prove-out-of-order']
+        if draw(st.integers(0, 59)) == 0:
+            return ['misuse', draw(st.sampled_from(MISUSES[2:]))]
     k = draw(st.sampled_from(STEP_KINDS))
     sj = gens.sugared_to_json
     if k == 'atom': return ['atom', gens.to_json(gens._atom(draw, CFG))]
